@@ -51,6 +51,27 @@ static bool orthEndpointInBBox(const vs::Scene &s, const std::vector<ConnSpec> &
     return false;
 }
 
+// routing polygons (alive shapes only; id = index + 1), routes and both visibility graphs
+static void dumpObservables(Router *router, const std::vector<ShapeRef *> &shapes, const std::vector<ConnRef *> &crs, const std::vector<ConnSpec> &conns) {
+    for (size_t i = 0; i < shapes.size(); ++i) if (shapes[i]) vs::printPts("rpoly", (unsigned) (i + 1), shapes[i]->routingPolygon().ps);
+    for (size_t i = 0; i < crs.size(); ++i) {
+        vs::printPts("route", conns[i].id, crs[i]->route().ps);
+        vs::printPts("display", conns[i].id, crs[i]->displayRoute().ps);
+    }
+    for (EdgeInf *e = router->visGraph.begin(); e != router->visGraph.end(); e = e->lstNext) {
+        std::pair<VertID, VertID> ids = e->ids();
+        std::pair<Point, Point> ps = e->points();
+        printf("vis %u %u %d %s %s %u %u %d %s %s\n", ids.first.objID, (unsigned) ids.first.vn, (int) ids.first.isConnPt(),
+               vh::hx(ps.first.x).c_str(), vh::hx(ps.first.y).c_str(), ids.second.objID, (unsigned) ids.second.vn,
+               (int) ids.second.isConnPt(), vh::hx(ps.second.x).c_str(), vh::hx(ps.second.y).c_str());
+    }
+    for (EdgeInf *e = router->visOrthogGraph.begin(); e != router->visOrthogGraph.end(); e = e->lstNext) {
+        std::pair<Point, Point> ps = e->points();
+        printf("ovis %s %s %s %s\n", vh::hx(ps.first.x).c_str(), vh::hx(ps.first.y).c_str(),
+               vh::hx(ps.second.x).c_str(), vh::hx(ps.second.y).c_str());
+    }
+}
+
 static void runBody(const vs::Scene &s, const std::vector<ConnSpec> &conns, const Cfg &cfg) {
     unsigned flags = (cfg.allowPoly ? PolyLineRouting : 0) | (cfg.allowOrth ? OrthogonalRouting : 0);
     Router *router = new Router(flags);
@@ -71,24 +92,7 @@ static void runBody(const vs::Scene &s, const std::vector<ConnSpec> &conns, cons
         crs.push_back(cr);
     }
     router->processTransaction();
-    // ---- observables
-    for (size_t i = 0; i < shapes.size(); ++i) vs::printPts("rpoly", (unsigned) (i + 1), shapes[i]->routingPolygon().ps);
-    for (size_t i = 0; i < crs.size(); ++i) {
-        vs::printPts("route", conns[i].id, crs[i]->route().ps);
-        vs::printPts("display", conns[i].id, crs[i]->displayRoute().ps);
-    }
-    for (EdgeInf *e = router->visGraph.begin(); e != router->visGraph.end(); e = e->lstNext) {
-        std::pair<VertID, VertID> ids = e->ids();
-        std::pair<Point, Point> ps = e->points();
-        printf("vis %u %u %d %s %s %u %u %d %s %s\n", ids.first.objID, (unsigned) ids.first.vn, (int) ids.first.isConnPt(),
-               vh::hx(ps.first.x).c_str(), vh::hx(ps.first.y).c_str(), ids.second.objID, (unsigned) ids.second.vn,
-               (int) ids.second.isConnPt(), vh::hx(ps.second.x).c_str(), vh::hx(ps.second.y).c_str());
-    }
-    for (EdgeInf *e = router->visOrthogGraph.begin(); e != router->visOrthogGraph.end(); e = e->lstNext) {
-        std::pair<Point, Point> ps = e->points();
-        printf("ovis %s %s %s %s\n", vh::hx(ps.first.x).c_str(), vh::hx(ps.first.y).c_str(),
-               vh::hx(ps.second.x).c_str(), vh::hx(ps.second.y).c_str());
-    }
+    dumpObservables(router, shapes, crs, conns);
     delete router;
 }
 
@@ -211,6 +215,80 @@ static unsigned xformDirs(unsigned d, bool mx, bool my, bool tr) {
     if (my) std::swap(up, down);
     if (tr) { std::swap(up, left); std::swap(down, right); }
     return (up ? ConnDirUp : 0) | (down ? ConnDirDown : 0) | (left ? ConnDirLeft : 0) | (right ? ConnDirRight : 0);
+}
+
+// ---- edit histories (tag poly-edit-history): polyline router kept alive over several transactions; after the
+//      initial routing each transaction ADDs a small rectangle or MOVEs an existing one across exactly one segment of
+//      the current route of a connector (first / middle / last / the only one), or deletes / moves away a shape.
+//      Each (history, step) is its own case; the child process replays the history from scratch up to that step and
+//      dumps the snapshot after the last transaction (shapes of the *current* scene as `shape` lines; the initial
+//      scene is printed by the parent as `shape0`).  Snapshots with three collinear graph points print `skip`
+//      (degenerate scenes belong to the lee-collinear class).
+struct HistOp { int kind; size_t shape; size_t conn; int segsel; };     // 0 delete, 1 move far away, 2 add across, 3 move across
+
+static void histBody(uint64_t seed, long kbase, size_t upto, const vs::Scene &s0, const std::vector<ConnSpec> &conns, const Cfg &cfg,
+                     const std::vector<HistOp> &ops, bool jitter) {
+    vh::Rng r = vh::caseRng(seed, kbase, 29);
+    Router *router = new Router(PolyLineRouting);
+    router->UseLeesAlgorithm = cfg.lee; router->IgnoreRegions = cfg.ignoreRegions; router->InvisibilityGrph = cfg.invis;
+    for (int i = 0; i < lastRoutingParameterMarker; ++i) if (cfg.paramSet[i]) router->setRoutingParameter((RoutingParameter) i, cfg.param[i]);
+    std::vector<vs::DPoly> cur = s0.shapes;
+    std::vector<ShapeRef *> refs;
+    for (size_t i = 0; i < cur.size(); ++i) { Polygon p = vs::toAvoid(cur[i]); refs.push_back(new ShapeRef(router, p, (unsigned) (i + 1))); }
+    std::vector<ConnRef *> crs;
+    std::vector<Point> eps;
+    for (auto &c : conns) { crs.push_back(new ConnRef(router, ConnEnd(Point(c.sx, c.sy)), ConnEnd(Point(c.dx, c.dy)), c.id)); eps.push_back(Point(c.sx, c.sy)); eps.push_back(Point(c.dx, c.dy)); }
+    router->processTransaction();
+    std::string histLine = "initial";
+    bool ended = false;
+    for (size_t step = 1; step <= upto && !ended; ++step) {
+        const HistOp &op = ops[step - 1];
+        char buf[200] = "";
+        if (op.kind == 2 || op.kind == 3) {
+            if (op.kind == 3 && !refs[op.shape]) { ended = true; break; }
+            std::vector<vs::DPoly> others;
+            for (size_t i = 0; i < cur.size(); ++i) if (refs[i] && !(op.kind == 3 && i == op.shape)) others.push_back(cur[i]);
+            double hw = 0, hh = 0, ocx = 0, ocy = 0;
+            if (op.kind == 3) {
+                double lx = 1e300, hx = -1e300, ly = 1e300, hy = -1e300;
+                for (auto &v : cur[op.shape]) { lx = std::min(lx, v.x); hx = std::max(hx, v.x); ly = std::min(ly, v.y); hy = std::max(hy, v.y); }
+                hw = (hx - lx) / 2; hh = (hy - ly) / 2; ocx = (hx + lx) / 2; ocy = (hy + ly) / 2;
+            }
+            vs::DPoly R; size_t seg = 0;
+            const std::vector<Point> &rt = crs[op.conn]->route().ps;
+            if (!vs::placeAcrossD(r, rt, op.segsel, others, eps, hw, hh, jitter && op.kind == 2, 1.0, R, seg)) { ended = true; break; }
+            if (op.kind == 2) {
+                cur.push_back(R); Polygon p = vs::toAvoid(R); refs.push_back(new ShapeRef(router, p, (unsigned) cur.size()));
+                snprintf(buf, sizeof buf, " | add %zu across segment %zu/%zu of conn %u", cur.size(), seg + 1, rt.size() - 1, conns[op.conn].id);
+            } else {
+                double dx = (R[0].x + R[2].x) / 2 - ocx, dy = (R[0].y + R[2].y) / 2 - ocy;
+                for (auto &v : cur[op.shape]) { v.x += dx; v.y += dy; }
+                router->moveShape(refs[op.shape], dx, dy);
+                snprintf(buf, sizeof buf, " | move %zu across segment %zu/%zu of conn %u", op.shape + 1, seg + 1, rt.size() - 1, conns[op.conn].id);
+            }
+        } else if (op.kind == 0) {
+            if (!refs[op.shape]) { ended = true; break; }
+            router->deleteShape(refs[op.shape]); refs[op.shape] = nullptr;
+            snprintf(buf, sizeof buf, " | delete %zu", op.shape + 1);
+        } else {
+            if (!refs[op.shape]) { ended = true; break; }
+            double dy = 1000.0 + 300.0 * (double) step;
+            for (auto &v : cur[op.shape]) v.y += dy;
+            router->moveShape(refs[op.shape], 0, dy);
+            snprintf(buf, sizeof buf, " | move %zu far away", op.shape + 1);
+        }
+        histLine += buf;
+        router->processTransaction();
+    }
+    printf("hist step %zu of %zu : %s\n", upto, ops.size(), histLine.c_str());
+    std::vector<vs::DPoly> now;
+    for (size_t i = 0; i < cur.size(); ++i) if (refs[i]) now.push_back(cur[i]);
+    if (ended || vs::hasCollinearTriple(now, eps)) printf("skip %s\n", ended ? "history-ended" : "collinear");
+    else {
+        for (size_t i = 0; i < cur.size(); ++i) if (refs[i]) vs::printShape((unsigned) (i + 1), cur[i]);
+        dumpObservables(router, refs, crs, conns);
+    }
+    delete router;
 }
 
 static void setParam(Cfg &c, RoutingParameter p, double v) { c.param[p] = v; c.paramSet[p] = true; }
@@ -418,6 +496,55 @@ int main(int argc, char **argv) {
             if (!ok) buffer = 0;
         }
         runHyperCase(k, zfam ? (major ? "orth-hyperedge-major" : "orth-hyperedge") : "orth-hyperedge-random", s, jpos, terms, buffer, major, segPen, nudge);
+    }
+    // ---- polyline edit histories (tag poly-edit-history); HSLOT case indices per history
+    const long HSLOT = 5;
+    long nhist = (thorough ? 150 : 40) * a.scale;
+    for (long h = 0; h < nhist; ++h, k += HSLOT) {
+        if (a.only >= 0 && (a.only < k || a.only >= k + HSLOT)) continue;
+        vh::Rng r = vh::caseRng(a.seed, k, 31);
+        Cfg cfg; cfg.invis = r.coin(7, 8); cfg.ignoreRegions = r.coin(4, 5);
+        if (r.coin(1, 3)) setParam(cfg, segmentPenalty, r.coin() ? 5 : 50);
+        vs::SceneOpts so; so.nShapesMin = 1; so.nShapesMax = 5; so.margin = 2; so.rectPct = 75; so.jitter = true; so.fullCellPct = 10;
+        vs::Scene g = vs::genScene(r, so);
+        vs::Scene s; s.W = g.W * 3; s.H = g.H * 3;
+        for (size_t i = 0; i < g.shapes.size(); ++i) { vs::DPoly q = g.shapes[i]; for (auto &v : q) { v.x *= 3; v.y *= 3; } s.shapes.push_back(q); s.isRect.push_back(g.isRect[i]); }
+        std::vector<vs::DPoly> rp = vs::routingPolys(s, 0);
+        std::vector<ConnSpec> cs;
+        int nconn = (int) r.range(1, 2);
+        for (int i = 0; i < nconn; ++i) {
+            ConnSpec c; c.id = 101 + i; c.orth = false;
+            if (!vs::freePoint(r, s, rp, 1.0, c.sx, c.sy, false) || !vs::freePoint(r, s, rp, 1.0, c.dx, c.dy, false)) continue;
+            c.sx += r.range(-7, 7) / 64.0; c.sy += r.range(-7, 7) / 64.0; c.dx += r.range(-7, 7) / 64.0; c.dy += r.range(-7, 7) / 64.0;
+            if (std::fabs(c.sx - c.dx) + std::fabs(c.sy - c.dy) < 8) continue;
+            cs.push_back(c);
+        }
+        if (cs.empty()) continue;
+        std::vector<HistOp> ops;
+        int nops = (int) r.range(1, (long) HSLOT - 1);
+        for (int q = 0; q < nops; ++q) {
+            HistOp op; op.conn = (size_t) r.range(0, (long) cs.size() - 1); op.segsel = (int) r.range(0, 3); op.shape = (size_t) r.range(0, (long) s.shapes.size() - 1);
+            int w = (int) r.range(0, 9);
+            op.kind = (w < 6) ? 2 : (w < 8) ? 3 : (w < 9 ? 0 : 1);
+            if (op.kind == 3 && !s.isRect[op.shape]) op.kind = 2;
+            ops.push_back(op);
+        }
+        for (size_t step = 0; step <= ops.size(); ++step) {
+            long kk = k + (long) step;
+            if (!a.want(kk)) continue;
+            vh::beginCase(kk, "poly-edit-history");
+            printf("cfg poly 1 orth 0 lee 1 ignoreRegions %d invis %d\n", cfg.ignoreRegions, cfg.invis);
+            for (int i = 0; i < lastRoutingParameterMarker; ++i) if (cfg.paramSet[i]) printf("param %s %s\n", paramName[i], vh::hx(cfg.param[i]).c_str());
+            for (size_t i = 0; i < s.shapes.size(); ++i) vs::printPts("shape0", (unsigned) (i + 1), s.shapes[i]);
+            for (auto &c : cs) printf("conn %u %s %s %s %s poly\n", c.id, vh::hx(c.sx).c_str(), vh::hx(c.sy).c_str(), vh::hx(c.dx).c_str(), vh::hx(c.dy).c_str());
+            printf("hplan %zu ops, snapshot after step %zu:", ops.size(), step);
+            for (auto &o : ops) printf(" (%d %zu %zu %d)", o.kind, o.shape + 1, o.conn, o.segsel);
+            printf("\n");
+            fflush(stdout);
+            uint64_t sd = a.seed; long kb = k;
+            forkRun([&]() { histBody(sd, kb, step, s, cs, cfg, ops, true); });
+            vh::endCase();
+        }
     }
     return 0;
 }
